@@ -658,10 +658,10 @@ Definition recorded : list (string * string * string * string) := [
   ("core/src/geometry/point.rs", "Div for Point::div", "div div", "point_div_ok");
   ("core/src/geometry/point.rs", "DivAssign for Point::div_assign", "div= div=", "point_div_ok");
   ("core/src/geometry/point.rs", "Neg for Point::neg", "neg neg", "point_neg_ok");
-  ("core/src/geometry/size.rs", "Size::saturating_add", ".saturating_add .saturating_add", "size_saturating_ok");
-  ("core/src/geometry/size.rs", "Size::saturating_sub", ".saturating_sub .saturating_sub", "size_saturating_ok");
+  ("core/src/geometry/size.rs", "Size::saturating_add", ".saturating_add( ) .saturating_add( )", "size_saturating_ok");
+  ("core/src/geometry/size.rs", "Size::saturating_sub", ".saturating_sub( ) .saturating_sub( )", "size_saturating_ok");
   ("core/src/geometry/size.rs", "Size::div_u32", "div div", "size_div_ok");
-  ("core/src/geometry/size.rs", "Size::from_bounding_box", "sub .unsigned_abs add 1 sub .unsigned_abs add 1", "from_bounding_box_ok");
+  ("core/src/geometry/size.rs", "Size::from_bounding_box", "( sub ) .unsigned_abs add 1 ( sub ) .unsigned_abs add 1", "from_bounding_box_ok");
   ("core/src/geometry/size.rs", "Size::component_mul", "mul mul", "size_component_mul_ok");
   ("core/src/geometry/size.rs", "Size::component_div", "div div", "size_component_div_ok");
   ("core/src/geometry/size.rs", "Add for Size::add", "add add", "size_add_ok");
@@ -671,80 +671,80 @@ Definition recorded : list (string * string * string * string) := [
   ("core/src/geometry/size.rs", "Mul for Size::mul", "mul mul", "size_mul_ok");
   ("core/src/geometry/size.rs", "MulAssign for Size::mul_assign", "mul= mul=", "size_mul_ok");
   ("core/src/geometry/size.rs", "DivAssign for Size::div_assign", "div= div=", "size_div_ok");
-  ("core/src/primitives/rectangle/mod.rs", "center_offset", ".saturating_sub 1 2", "center_offset_ok");
+  ("core/src/primitives/rectangle/mod.rs", "center_offset", ".saturating_sub( 1 ) 2", "center_offset_ok");
   ("core/src/primitives/rectangle/mod.rs", "Rectangle::center", "add", "center_ok");
   ("core/src/primitives/rectangle/mod.rs", "Rectangle::bottom_right", "0 0 add sub 1 1", "bottom_right_ok");
   ("core/src/primitives/rectangle/mod.rs", "Rectangle::resize_width_mut", ".saturating_as 1 sub .saturating_as 1 add= 0 div 2", "resized_width_ok");
   ("core/src/primitives/rectangle/mod.rs", "Rectangle::resize_height_mut", ".saturating_as 1 sub .saturating_as 1 add= 0 div 2", "resized_height_ok");
-  ("core/src/primitives/rectangle/mod.rs", "Rectangle::offset", "0 .saturating_add as:u32 mul 2 .saturating_sub neg as:u32 mul 2", "offset_ok");
+  ("core/src/primitives/rectangle/mod.rs", "Rectangle::offset", "0 .saturating_add( as:u32 mul 2 ) .saturating_sub( ( neg ) as:u32 mul 2 )", "offset_ok");
   ("core/src/primitives/rectangle/mod.rs", "Rectangle::anchor_x", ".saturating_as 1 sub 1 add 0 div 2", "anchor_x_ok");
   ("core/src/primitives/rectangle/mod.rs", "Rectangle::anchor_y", ".saturating_as 1 sub 1 add 0 div 2", "anchor_y_ok");
-  ("core/src/primitives/rectangle/mod.rs", "Rectangle::rows", ".saturating_add .saturating_as", "rows_columns_ok");
-  ("core/src/primitives/rectangle/mod.rs", "Rectangle::columns", ".saturating_add .saturating_as", "rows_columns_ok");
+  ("core/src/primitives/rectangle/mod.rs", "Rectangle::rows", ".saturating_add( .saturating_as )", "rows_columns_ok");
+  ("core/src/primitives/rectangle/mod.rs", "Rectangle::columns", ".saturating_add( .saturating_as )", "rows_columns_ok");
   ("src/geometry/mod.rs", "PointExt for Point::rotate_90", "neg", "rotate_90_ok");
   ("src/geometry/mod.rs", "PointExt for Point::dot_product", "mul add mul", "dot_product_ok");
   ("src/geometry/mod.rs", "PointExt for Point::determinant", "mul sub mul", "determinant_ok");
-  ("src/geometry/mod.rs", "PointExt for Point::length_squared", ".pow 2 add .pow 2", "length_squared_ok");
+  ("src/geometry/mod.rs", "PointExt for Point::length_squared", ".pow( 2 ) add .pow( 2 )", "length_squared_ok");
   ("src/primitives/primitive_style.rs", "PrimitiveStyle::outside_stroke_width", "0 div 2", "stroke_widths_ok");
-  ("src/primitives/primitive_style.rs", "PrimitiveStyle::inside_stroke_width", ".saturating_add 1 div 2 0", "stroke_widths_ok");
+  ("src/primitives/primitive_style.rs", "PrimitiveStyle::inside_stroke_width", ".saturating_add( 1 ) div 2 0", "stroke_widths_ok");
   ("src/primitives/primitive_style.rs", "PrimitiveStyle::stroke_area", ".saturating_as", "rect_stroke_area_ok");
   ("src/primitives/primitive_style.rs", "PrimitiveStyle::fill_area", "neg .saturating_as 0", "rect_fill_area_ok");
-  ("src/primitives/circle/mod.rs", "Circle::center_2x", ".saturating_sub 1 mul 2 add", "circle_center_2x_ok");
-  ("src/primitives/circle/mod.rs", "OffsetOutline for Circle::offset", "0 .saturating_add 2 mul as:u32 .saturating_sub 2 mul neg as:u32", "circle_offset_ok");
+  ("src/primitives/circle/mod.rs", "Circle::center_2x", ".saturating_sub( 1 ) mul 2 add", "circle_center_2x_ok");
+  ("src/primitives/circle/mod.rs", "OffsetOutline for Circle::offset", "0 .saturating_add( 2 mul as:u32 ) .saturating_sub( 2 mul ( neg ) as:u32 )", "circle_offset_ok");
   ("src/primitives/circle/mod.rs", "ContainsPoint for Circle::contains", "sub mul 2 as:u32", "circle_contains_ok");
   ("src/primitives/circle/mod.rs", "Transform for Circle::translate", "add", "point_add_ok");
   ("src/primitives/circle/mod.rs", "Transform for Circle::translate_mut", "add=", "point_add_ok");
-  ("src/primitives/circle/mod.rs", "diameter_to_threshold", "4 .pow 2 sub div 2 .pow 2", "diameter_to_threshold_ok");
-  ("src/primitives/ellipse/mod.rs", "OffsetOutline for Ellipse::offset", "0 .saturating_add 2 mul as:u32 .saturating_sub 2 mul neg as:u32", "ellipse_offset_ok");
-  ("src/primitives/ellipse/mod.rs", "center_2x", ".saturating_sub 1 1 mul 2 add", "ellipse_center_2x_ok");
+  ("src/primitives/circle/mod.rs", "diameter_to_threshold", "4 .pow( 2 ) sub div 2 .pow( 2 )", "diameter_to_threshold_ok");
+  ("src/primitives/ellipse/mod.rs", "OffsetOutline for Ellipse::offset", "0 .saturating_add( 2 mul as:u32 ) .saturating_sub( 2 mul ( neg ) as:u32 )", "ellipse_offset_ok");
+  ("src/primitives/ellipse/mod.rs", "center_2x", ".saturating_sub( 1 1 ) mul 2 add", "ellipse_center_2x_ok");
   ("src/primitives/ellipse/mod.rs", "ContainsPoint for Ellipse::contains", "mul 2 sub", "ellipse_contains_ok");
   ("src/primitives/ellipse/mod.rs", "Transform for Ellipse::translate", "add", "point_add_ok");
   ("src/primitives/ellipse/mod.rs", "Transform for Ellipse::translate_mut", "add=", "point_add_ok");
-  ("src/primitives/ellipse/mod.rs", "EllipseContains::new", "as:u64 .pow 2 as:u64 .pow 2 as:u64 mul", "ellipse_contains_new_ok");
-  ("src/primitives/ellipse/mod.rs", "EllipseContains::contains", "as:i64 .pow 2 as:u64 as:i64 .pow 2 as:u64 add mul add mul", "ellipse_contains_point_ok");
+  ("src/primitives/ellipse/mod.rs", "EllipseContains::new", "( as:u64 ) .pow( 2 ) ( as:u64 ) .pow( 2 ) as:u64 mul", "ellipse_contains_new_ok");
+  ("src/primitives/ellipse/mod.rs", "EllipseContains::contains", "( as:i64 ) .pow( 2 ) as:u64 ( as:i64 ) .pow( 2 ) as:u64 add mul add mul", "ellipse_contains_point_ok");
   ("src/primitives/rounded_rectangle/ellipse_quadrant.rs", "EllipseQuadrant::new", "sub sub sub mul 2 mul 2", "ellipse_quadrant_new_ok");
   ("src/primitives/rounded_rectangle/ellipse_quadrant.rs", "ContainsPoint for EllipseQuadrant::contains", "mul 2 sub", "ellipse_quadrant_contains_ok");
-  ("src/primitives/rounded_rectangle/corner_radii.rs", "CornerRadii::confine", "0 0 add add add add 0 u64::from mul u64::from u64::from mul u64::from 0 mul div mul div mul div mul div", "confine_ok");
+  ("src/primitives/rounded_rectangle/corner_radii.rs", "CornerRadii::confine", "0 0 add add add add ( ) ( ) ( ) ( ) ( 0 u64::from( ) mul u64::from( ) u64::from( ) mul u64::from( ) ) 0 ( mul ) div ( mul ) div ( mul ) div ( mul ) div", "confine_ok");
   ("src/primitives/line/mod.rs", "Line::with_delta", "add add", "point_add_ok");
   ("src/primitives/line/mod.rs", "Line::perpendicular", "sub neg add", "perpendicular_ok");
-  ("src/primitives/line/mod.rs", "Line::midpoint", "add sub div 2", "midpoint_ok");
+  ("src/primitives/line/mod.rs", "Line::midpoint", "add ( sub ) div 2", "midpoint_ok");
   ("src/primitives/line/mod.rs", "Line::delta", "sub", "line_delta_ok");
   ("src/primitives/line/mod.rs", "Transform for Line::translate", "add add", "point_add_ok");
   ("src/primitives/line/mod.rs", "Transform for Line::translate_mut", "add= add=", "point_add_ok");
   ("src/primitives/line/points.rs", "Iterator for Points::next", "0 sub= 1", "line_points_ok");
-  ("src/primitives/line/bresenham.rs", "BresenhamParameters::new", "sub 0 1 neg 1 0 1 neg 1 .abs 2 mul 2 mul", "bparams_new_ok");
+  ("src/primitives/line/bresenham.rs", "BresenhamParameters::new", "sub 0 1 neg 1 0 1 neg 1 .abs ( ) ( ) ( ) 2 mul 2 mul", "bparams_new_ok");
   ("src/primitives/line/bresenham.rs", "BresenhamParameters::increase_error", "add= sub=", "increase_error_ok");
   ("src/primitives/line/bresenham.rs", "BresenhamParameters::decrease_error", "sub= neg add=", "decrease_error_ok");
   ("src/primitives/line/bresenham.rs", "BresenhamParameters::mirror_extra_points", "0 neg", "next_all_ok");
   ("src/primitives/line/bresenham.rs", "Bresenham::next", "add= sub= add= add=", "bnext_ok");
   ("src/primitives/line/bresenham.rs", "Bresenham::next_all", "add= sub= add= sub= add= add=", "next_all_ok");
   ("src/primitives/line/bresenham.rs", "Bresenham::previous_all", "neg sub= add= sub= add= sub= sub=", "previous_all_ok");
-  ("src/primitives/line/bresenham.rs", "major_length", "sub .abs as:u32 add 1", "major_length_ok");
-  ("src/primitives/line/thick_points.rs", "ParallelsIterator::new", "i64::from mul 2 .pow 2 mul i64::from add div 2 neg 0 0 .swap", "parallels_new_ok");
-  ("src/primitives/line/thick_points.rs", "Iterator for ParallelsIterator::next", "i64::from .pow 2 add= add= .swap", "parallels_next_ok");
-  ("src/primitives/line/thick_points.rs", "Iterator for ThickPoints::next", "0 sub= 1 sub= 1", "thick_points_next_ok");
-  ("src/primitives/line/intersection_params.rs", "IntersectionParams::nearly_colinear_has_error", "i64::from .pow 2 i64::from .abs", "nearly_colinear_ok");
-  ("src/primitives/line/intersection_params.rs", "IntersectionParams::intersection", "0 0 i64::from 0 neg neg add div 2 .div_euclid .saturating_as i64::from 0 mul i64::from 1 sub i64::from 1 mul i64::from 0", "ip_intersection_ok");
+  ("src/primitives/line/bresenham.rs", "major_length", "( sub ) .abs as:u32 add 1", "major_length_ok");
+  ("src/primitives/line/thick_points.rs", "ParallelsIterator::new", "( i64::from( ) mul 2 ) .pow( 2 ) mul i64::from( ) ( add ) div 2 neg 0 0 .swap", "parallels_new_ok");
+  ("src/primitives/line/thick_points.rs", "Iterator for ParallelsIterator::next", "i64::from( ) .pow( 2 ) ( ) add= ( ) add= ( ) .swap", "parallels_next_ok");
+  ("src/primitives/line/thick_points.rs", "Iterator for ThickPoints::next", "0 sub= 1 ( ) sub= 1", "thick_points_next_ok");
+  ("src/primitives/line/intersection_params.rs", "IntersectionParams::nearly_colinear_has_error", "i64::from( ) .pow( 2 ) i64::from( ) .abs", "nearly_colinear_ok");
+  ("src/primitives/line/intersection_params.rs", "IntersectionParams::intersection", "0 0 i64::from( ) ( ) 0 ( neg neg ) ( ) ( add div 2 ) .div_euclid( ) .saturating_as ( ) ( ) i64::from( 0 ) mul i64::from( 1 ) sub i64::from( 1 ) mul i64::from( 0 ) ( ) ( ) ( )", "ip_intersection_ok");
   ("src/primitives/common/linear_equation.rs", "const NORMAL_VECTOR_SCALE", "1 shl 10", "constant item, evaluated by rustc");
   ("src/primitives/common/linear_equation.rs", "LinearEquation::distance", "sub", "le_point_distance_ok");
-  ("src/primitives/common/line_join.rs", "LineJoin::from_points", "sub i64::from .pow 2 add i64::from .pow 2 i64::from mul 2 .pow 2", "miter_ok");
-  ("src/primitives/triangle/mod.rs", "ContainsPoint for Triangle::contains", "mul sub mul add sub mul add sub mul mul sub mul add sub mul add sub mul 0 0 0 0 0 0 add 0 0 add", "triangle_contains_ok");
-  ("src/primitives/triangle/mod.rs", "Triangle::area_doubled", "neg mul add mul sub add mul sub add mul", "area_doubled_ok");
+  ("src/primitives/common/line_join.rs", "LineJoin::from_points", "( ) ( ) ( ) sub i64::from( ) .pow( 2 ) add i64::from( ) .pow( 2 ) ( i64::from( ) mul 2 ) .pow( 2 )", "miter_ok");
+  ("src/primitives/triangle/mod.rs", "ContainsPoint for Triangle::contains", "mul sub mul add ( sub ) mul add ( sub ) mul mul sub mul add ( sub ) mul add ( sub ) mul ( 0 ) ( 0 ) 0 0 0 0 add 0 0 add", "triangle_contains_ok");
+  ("src/primitives/triangle/mod.rs", "Triangle::area_doubled", "neg mul add mul ( sub ) add mul ( sub ) add mul", "area_doubled_ok");
   ("src/primitives/triangle/mod.rs", "Transform for Triangle::translate_mut", "add=", "point_add_ok");
   ("src/text/mod.rs", "LineHeight::to_absolute", "mul div 100", "line_height_ok");
   ("src/text/text.rs", "Transform for Text::translate", "add", "point_add_ok");
   ("src/text/text.rs", "Transform for Text::translate_mut", "add=", "point_add_ok");
   ("src/text/text.rs", "Text::line_height", ".saturating_as", "line_height_ok");
-  ("src/text/text.rs", "Text::lines", "sub sub 1 0 sub sub 1 0 div 2 add=", "text_line_ok");
+  ("src/text/text.rs", "Text::lines", "sub ( sub 1 0 ) sub ( sub 1 0 ) div 2 add= ( )", "text_line_ok");
   ("src/image/image_raw.rs", "ImageRaw::new", "mul as:usize", "image_new_ok");
   ("src/image/image_raw.rs", "ImageRaw::data_width", "8 8 div as:u32 as:u32 mul", "data_width_ok");
-  ("src/image/image_raw.rs", "bytes_per_row", "as:usize mul add 7 div 8", "bytes_per_row_ok");
+  ("src/image/image_raw.rs", "bytes_per_row", "( as:usize mul add 7 ) div 8", "bytes_per_row_ok");
   ("src/image/image_raw.rs", "ImageDrawable for ImageRaw::draw", "sub 0 as:usize", "image_draw_ok");
-  ("src/image/image_raw.rs", "ImageDrawable for ImageRaw::draw_sub_image", "0 0 as:u32 add as:u32 add as:usize as:usize mul add as:usize sub as:usize", "image_draw_sub_ok");
+  ("src/image/image_raw.rs", "ImageDrawable for ImageRaw::draw_sub_image", "0 0 as:u32 add as:u32 add ( ) as:usize as:usize mul add as:usize sub as:usize", "image_draw_sub_ok");
   ("src/image/image_raw.rs", "GetPixel for ImageRaw::pixel", "0 0 as:i32 as:i32 as:usize add as:usize mul as:usize", "image_pixel_ok");
-  ("src/image/image_raw.rs", "ContiguousPixels::new", "0 sub 1 0 .saturating_sub 1 0 0 0", "cpix_new_ok");
+  ("src/image/image_raw.rs", "ContiguousPixels::new", "0 sub 1 0 .saturating_sub( 1 ) 0 0 0", "cpix_new_ok");
   ("src/image/image_raw.rs", "Iterator for ContiguousPixels::next", "0 sub= 1 0 sub= 1 sub 1", "cpix_next_ok");
-  ("src/iterator/contiguous.rs", "Cropped::new", "as:usize mul as:usize add as:usize 0 sub 1 0 0 .saturating_sub as:usize", "cropped_new_ok");
+  ("src/iterator/contiguous.rs", "Cropped::new", "as:usize mul as:usize add as:usize 0 sub 1 0 0 .saturating_sub( ) as:usize", "cropped_new_ok");
   ("src/iterator/contiguous.rs", "Iterator for Cropped::next", "0 add= 1 1 add= 1", "cropped_next_ok")
 ].
 
@@ -752,7 +752,7 @@ Definition unmodelled_fns : list (string * string) := [
   ("core/src/geometry/point.rs", "Index for Point::index");   (* point.rs:393  0 1 panic! *)
   ("core/src/geometry/point.rs", "From for Point::from#2");   (* point.rs:417  index 0 index 1 *)
   ("core/src/geometry/point.rs", "From for Point::from#3");   (* point.rs:423  index 0 index 1 *)
-  ("core/src/geometry/point.rs", "TryFrom for ( u32 , u32 )::try_from");   (* point.rs:449  .try_into .try_into *)
+  ("core/src/geometry/point.rs", "TryFrom for ( u32 , u32 )::try_from");   (* point.rs:449  ( .try_into .try_into ) *)
   ("core/src/geometry/point.rs", "TryFrom for Point::try_from");   (* point.rs:457  0 .try_into 1 .try_into *)
   ("core/src/geometry/point.rs", "TryFrom for [ u32 ; 2 ]::try_from");   (* point.rs:468  .try_into .try_into *)
   ("core/src/geometry/point.rs", "TryFrom for Point::try_from#2");   (* point.rs:476  index 0 .try_into index 1 .try_into *)
@@ -764,21 +764,21 @@ Definition unmodelled_fns : list (string * string) := [
   ("core/src/geometry/size.rs", "From for Size::from#3");   (* size.rs:350  index 0 index 1 *)
   ("core/src/geometry/size.rs", "From for Size::from#4");   (* size.rs:387  index 0 index 1 *)
   ("core/src/geometry/size.rs", "From for Size::from#5");   (* size.rs:397  index 0 index 1 *)
-  ("src/primitives/line/mod.rs", "Line::extents");   (* mod.rs:110  .saturating_as add 0 0 sub add sub 1 add sub 1 *)
-  ("src/primitives/common/linear_equation.rs", "OriginLinearEquation::with_angle");   (* linear_equation.rs:78  f180.0 0 neg i32::from mul Real::from i32::from mul Real::from *)
+  ("src/primitives/line/mod.rs", "Line::extents");   (* mod.rs:110  .saturating_as add ( ) ( ) ( ) ( ) ( ) ( ) ( ) ( ) ( ) ( ) 0 0 sub add sub 1 add sub 1 ( ) *)
+  ("src/primitives/common/linear_equation.rs", "OriginLinearEquation::with_angle");   (* linear_equation.rs:78  f180.0 0 neg i32::from( mul Real::from( ) ) i32::from( mul Real::from( ) ) *)
   ("src/primitives/triangle/mod.rs", "Triangle::from_slice");   (* mod.rs:170  panic! *)
   ("src/primitives/triangle/mod.rs", "Triangle::sorted_clockwise");   (* mod.rs:188  0 index 1 index 0 index 2 *)
-  ("src/primitives/triangle/mod.rs", "Triangle::is_collapsed");   (* mod.rs:249  index add 1 rem 3 index add 2 rem 3 1 *)
+  ("src/primitives/triangle/mod.rs", "Triangle::is_collapsed");   (* mod.rs:249  ( ) index ( add 1 ) rem 3 index ( add 2 ) rem 3 1 *)
   ("src/image/image_raw.rs", "ImageRaw::new_const")   (* image_raw.rs:174  panic! *)
 ].
 
-(* a skeleton made of integer literals only has no operation that could panic *)
+(* a skeleton made of integer literals (and grouping parentheses) only has no operation that could panic *)
 Fixpoint skel_trivial (s : string) : bool :=
   match s with
   | EmptyString => true
   | String c r =>
       let n := Ascii.nat_of_ascii c in
-      (Nat.eqb n 32 || (Nat.leb 48 n && Nat.leb n 57)) && skel_trivial r
+      (Nat.eqb n 32 || Nat.eqb n 40 || Nat.eqb n 41 || (Nat.leb 48 n && Nat.leb n 57)) && skel_trivial r
   end.
 Definition site_recorded (f fn sk : string) : bool :=
   existsb (fun r => match r with (f', fn', sk', _) => String.eqb f f' && String.eqb fn fn' && String.eqb sk sk' end) recorded.
